@@ -28,33 +28,33 @@ type LoopContract struct {
 
 // Contract is everything declared under one "//@ func" header.
 type Contract struct {
-	Key        string
-	Requires   []*Clause
-	Ensures    []*Clause
-	Modifies   *Clause // nil = may modify the whole heap
-	Loops      map[int]*LoopContract
-	Pure       bool // callers may inline the body as a spec function
-	Trusted    bool // contract assumed, body not verified (external or out-of-subset)
-	Inline     bool // callers inline the body instead of using the contract
-	NoSafety   bool // do not generate no-panic obligations (for spec helpers)
-	SafetyOnly bool
-	Props      []string
-	Assumes    []string // free-text assumptions to be listed in evidence
-	File       string
-	Line       int
-	Used       bool
-	Region     *RegionSpec
-	Ghost      []*Clause // ghost updates performed by a call: "ghost name += expr"
-	Axiom      bool
-	Lemma      bool
-	Vars       []string // lemma: "name type" universally quantified variables
-	Calls      []string // for documentation
-	Observes   []string // expressions whose values counterexamples report
-	Locked     []string // lock field names that every caller must hold
-	AtCalls    []*AtCall // assertions checked in this function just before calls of a named callee
-	TimeoutS   int      // per-obligation solver budget for this unit in seconds (0 = tier default)
-	Prune      bool     // drop branches the precondition rules out while executing (narrow-precondition variants)
-	DeadReturnCount int // number of return sites that are legitimately unreachable under the precondition (defensive dead code)
+	Key             string
+	Requires        []*Clause
+	Ensures         []*Clause
+	Modifies        *Clause // nil = may modify the whole heap
+	Loops           map[int]*LoopContract
+	Pure            bool // callers may inline the body as a spec function
+	Trusted         bool // contract assumed, body not verified (external or out-of-subset)
+	Inline          bool // callers inline the body instead of using the contract
+	NoSafety        bool // do not generate no-panic obligations (for spec helpers)
+	SafetyOnly      bool
+	Props           []string
+	Assumes         []string // free-text assumptions to be listed in evidence
+	File            string
+	Line            int
+	Used            bool
+	Region          *RegionSpec
+	Ghost           []*Clause // ghost updates performed by a call: "ghost name += expr"
+	Axiom           bool
+	Lemma           bool
+	Vars            []string  // lemma: "name type" universally quantified variables
+	Calls           []string  // for documentation
+	Observes        []string  // expressions whose values counterexamples report
+	Locked          []string  // lock field names that every caller must hold
+	AtCalls         []*AtCall // assertions checked in this function just before calls of a named callee
+	TimeoutS        int       // per-obligation solver budget for this unit in seconds (0 = tier default)
+	Prune           bool      // drop branches the precondition rules out while executing (narrow-precondition variants)
+	DeadReturnCount int       // number of return sites that are legitimately unreachable under the precondition (defensive dead code)
 }
 
 type RegionSpec struct {
@@ -67,7 +67,7 @@ type RegionSpec struct {
 
 var clauseKeywords = map[string]bool{"func": true, "requires": true, "ensures": true, "modifies": true, "loop": true,
 	"pure": true, "trusted": true, "inline": true, "nosafety": true, "props": true, "assume": true, "region": true,
-	"from": true, "to": true, "ghost": true, "lemma": true, "vars": true, "safetyonly": true, "field": true, "monitor": true, "end": true, "observe": true, "deadreturn": true, "locked": true, "prune": true, "atcall": true, "atsend": true, "timeout": true, "atreturn": true}
+	"from": true, "to": true, "ghost": true, "lemma": true, "vars": true, "safetyonly": true, "field": true, "monitor": true, "end": true, "observe": true, "deadreturn": true, "locked": true, "prune": true, "atcall": true, "atsend": true, "timeout": true, "atreturn": true, "callers": true}
 
 type rawLine struct {
 	text string
@@ -143,7 +143,7 @@ func ParseContractFile(path string) ([]*Contract, []*Decl, error) {
 			out = append(out, cur)
 			continue
 		}
-		if kw == "field" || kw == "monitor" {
+		if kw == "field" || kw == "monitor" || kw == "callers" {
 			decls = append(decls, &Decl{Kind: kw, Text: rest, File: path, Line: rl.line})
 			continue
 		}
